@@ -128,6 +128,59 @@ func kindSwitch(fn string) (arms []string, hasDefault bool, derefs bool) {
 	return
 }
 
+// ctxSwitchSites: every assignment that makes another context current (`<recv>.ctx = …` outside a defer), per
+// function, and whether the same block has, before it, a `defer func() { <recv>.ctx = <saved> }()` that restores it
+func ctxSwitchSites() []string {
+	var rows []string
+	for _, file := range []string{"compiler.go", "helper_context.go", "partial_helper.go", "template.go", "plush.go"} {
+		_, f, _ := parseFile(file)
+		for _, d := range f.Decls {
+			fd, ok := d.(*ast.FuncDecl)
+			if !ok || fd.Body == nil {
+				continue
+			}
+			var walk func(b *ast.BlockStmt, inDefer bool, outer map[string]bool)
+			walk = func(b *ast.BlockStmt, inDefer bool, outer map[string]bool) {
+				// a defer registered earlier in an enclosing block covers the nested block too
+				restored := map[string]bool{}
+				for k, v := range outer {
+					restored[k] = v
+				}
+				for _, st := range b.List {
+					switch t := st.(type) {
+					case *ast.DeferStmt:
+						if fl, ok := t.Call.Fun.(*ast.FuncLit); ok {
+							for _, ds := range fl.Body.List {
+								if as, ok := ds.(*ast.AssignStmt); ok && len(as.Lhs) == 1 && strings.HasSuffix(exprString(as.Lhs[0]), ".ctx") {
+									restored[exprString(as.Lhs[0])] = true
+								}
+							}
+						}
+					case *ast.AssignStmt:
+						if !inDefer && len(t.Lhs) == 1 && strings.HasSuffix(exprString(t.Lhs[0]), ".ctx") && t.Tok.String() == "=" {
+							rows = append(rows, fmt.Sprintf("  (%s, %v)", strconv.Quote(file+":"+fd.Name.Name), restored[exprString(t.Lhs[0])]))
+						}
+					}
+					ast.Inspect(st, func(n ast.Node) bool {
+						switch x := n.(type) {
+						case *ast.FuncLit:
+							return false // closures (incl. the deferred restores) are not walked as switch sites
+						case *ast.BlockStmt:
+							if x != b {
+								walk(x, inDefer, restored)
+								return false
+							}
+						}
+						return true
+					})
+				}
+			}
+			walk(fd.Body, false, nil)
+		}
+	}
+	return rows
+}
+
 func genEvalDispatch() {
 	_, _, sha := parseFile("compiler.go")
 	er, ee := switchArms("evalExpression")
@@ -147,6 +200,8 @@ func genEvalDispatch() {
 		fmt.Fprintf(&sb, "def %sHasDefault : Bool := %v\n", fn, def)
 		fmt.Fprintf(&sb, "/-- a pointer operand is dereferenced before the switch -/\ndef %sDerefsPointer : Bool := %v\n\n", fn, deref)
 	}
+	sb.WriteString("/-- every place that makes another context current (`x.ctx = …`), by file:function, and whether a `defer` in the\n    same block restores the previous one (so that it is restored on the error paths too) -/\n")
+	sb.WriteString("def ctxSwitchSites : List (String × Bool) := [\n" + strings.Join(ctxSwitchSites(), ",\n") + "\n]\n\n")
 	sb.WriteString("end Plush.Gen\n")
 	emit("EvalDispatch", "compiler.go", sha, sb.String())
 }
